@@ -27,6 +27,90 @@ for i := 0; i < 2; YIELD(x*100 + i) {
 }
 YIELD(x)
 RETNIL`, "for-post-yield", "shadow"),
+		G("scope-multi-variable-for-init-shadows-earlier-local", `
+base := tr.V(1, 7) * 10
+origin := func() int { return tr.R(2, base) }
+bump := func() { base += 1000 }
+for base, i := 0, 0; ; i++ {
+	if i >= 3 {
+		RETNIL
+	}
+	YIELD(origin() + tr.R(3, base))
+	base += 100
+	bump()
+}
+RETNIL`, "for-init-decl", "shadow", "for:multi-init"),
+		G("scope-multi-variable-for-init-shadows-earlier-local-variants", `
+x, y := 5, 6
+px := &x
+gety := func() int { return tr.R(1, y) }
+for x, k := 100, 0; k < 2; k++ {
+	YIELD(x + *px)
+	x++
+	*px += 10
+}
+YIELD(x)
+for y, k := gety()+200, 0; ; k++ {
+	if k == 2 {
+		break
+	}
+	y += 3
+	YIELD(y*1000 + gety())
+}
+YIELD(y)
+{
+	z := 1
+	getz := func() int { return tr.R(2, z) }
+	for z, k := 40, 0; ; k, z = k+1, z+1 {
+		if k > 1 {
+			YIELD(z)
+			RETNIL
+		}
+		YIELD(getz()*100 + z)
+	}
+}
+RETNIL`, "for-init-decl", "shadow", "for:multi-init"),
+		G("scope-multi-variable-init-of-if-and-switch-shadows-earlier-local", `
+v := 3
+getv := func() int { return tr.R(1, v) }
+if v, w := v*10, 1; tr.B(2) {
+	YIELD(v + w)
+	v++
+	YIELD(getv()*100 + v)
+} else {
+	YIELD(getv())
+}
+switch v, w := v+50, 2; {
+case tr.B(3):
+	YIELD(v * w)
+	v += 5
+	YIELD(getv()*100 + v)
+default:
+	YIELD(-v)
+}
+YIELD(getv())
+RETNIL`, "if-init:decl", "shadow"),
+		G("scope-partial-redeclaration-after-yield-aliased-through-field-method-or-slice", `
+type acc struct{ n, m int }
+var a acc
+pf := &a.n
+YIELD(a.n)
+a, k := acc{n: 5, m: 1}, 2
+*pf += k
+YIELD(a.n*10 + *pf)
+var arr [3]int
+sl := arr[:]
+YIELD(arr[0])
+arr, q := [3]int{1, 2, 3}, 9
+sl[0] += q
+YIELD(arr[0]*100 + sl[0])
+xs := []int{1, 2}
+p0 := &xs[0]
+YIELD(xs[0])
+xs, r := append(xs[:1:1], 7), 3
+*p0 += r
+YIELD(xs[0]*10 + len(xs))
+RETNIL`, "partial-redeclaration"),
 		G("scope-partial-redeclaration-after-yield", `
 a := 1
 get := func() int { return tr.R(1, a) }
